@@ -120,6 +120,8 @@ pub struct Fault {
     /// index of the outgoing server message the fault applies to
     pub message: u16,
     pub kind: FaultKind,
+    /// optional second fault on the same message (double faults)
+    pub kind2: Option<FaultKind>,
 }
 
 #[derive(Debug, Clone)]
@@ -132,7 +134,7 @@ pub struct OutMsg {
 
 pub fn apply_fault(b: &Built, kind: &FaultKind) -> (Vec<u8>, String) {
     let mut bytes = b.bytes.clone();
-    let scalars: Vec<&Field> = b.fields.iter().filter(|f| f.width > 0).collect();
+    let scalars: Vec<&Field> = b.fields.iter().filter(|f| f.width > 0 && f.off + f.width as usize <= b.bytes.len()).collect();
     let desc;
     match kind {
         FaultKind::SetField { field, value } => {
@@ -211,7 +213,15 @@ impl Server {
         self.sent += 1;
         match &self.fault {
             Some(f) if f.message == idx => {
-                let (bytes, desc) = apply_fault(&b, &f.kind);
+                let (mut bytes, mut desc) = apply_fault(&b, &f.kind);
+                if let Some(k2) = &f.kind2 {
+                    let b2 = Built { bytes, fields: b.fields.iter().filter(|x| x.off + x.width as usize <= b.bytes.len()).cloned().collect() };
+                    let fields_ok: Vec<Field> = b2.fields.iter().filter(|x| x.off + (x.width as usize) <= b2.bytes.len()).cloned().collect();
+                    let b3 = Built { bytes: b2.bytes, fields: fields_ok };
+                    let (by, d2) = apply_fault(&b3, k2);
+                    bytes = by;
+                    desc = format!("{} + {}", desc, d2);
+                }
                 out.push(OutMsg { name, bytes, fields: b.fields, faulted: Some(desc) });
             }
             _ => out.push(OutMsg { name, bytes: b.bytes, fields: b.fields, faulted: None }),
